@@ -30,7 +30,7 @@ def handle_return(expr: Union[ast.Return, astroid.Return]) -> Token | None:
     value = get_value(expr=expr.value)
     if value is UNKNOWN:
         return None
-    return Token(value=value, line=expr.lineno, col=expr.value.col_offset)
+    return Token(value=value, line=expr.value.lineno, col=expr.value.col_offset)
 
 
 @get_returns.register(*TOKENS.YIELD)
@@ -40,4 +40,4 @@ def handle_yield(expr: Union[ast.Yield, astroid.Yield]) -> Token | None:
     value = get_value(expr=expr.value)
     if value is UNKNOWN:
         return None
-    return Token(value=value, line=expr.lineno, col=expr.value.col_offset)
+    return Token(value=value, line=expr.value.lineno, col=expr.value.col_offset)
